@@ -20,7 +20,7 @@ while i < len(args):
 base = json.load(open("/root/.vp/BASELINE.json"))
 stable = set(base["stable_pass"])
 fd, xml = tempfile.mkstemp(suffix=".xml"); os.close(fd)
-env = dict(os.environ, PYTHONDONTWRITEBYTECODE="1", OMP_NUM_THREADS="1", NUMBA_NUM_THREADS="1", OPENBLAS_NUM_THREADS="1", MKL_NUM_THREADS="1")
+env = dict(os.environ, HYPOTHESIS_STORAGE_DIRECTORY=tempfile.mkdtemp(prefix="hyp-"), PYTHONDONTWRITEBYTECODE="1", OMP_NUM_THREADS="1", NUMBA_NUM_THREADS="1", OPENBLAS_NUM_THREADS="1", MKL_NUM_THREADS="1")
 env.pop("FLOX_VERIF", None)
 cmd = ["/venv/bin/python", "-m", "pytest", "-q", "-p", "no:cacheprovider", "--timeout=900",
        "--continue-on-collection-errors", f"--junitxml={xml}", "-n", nw]
